@@ -409,6 +409,29 @@ def program_texts(calls, n):
     for k, d in progs.items():
         for c, src in d.items():
             flat[k + "|" + c] = src
+    # objects that print alike and differ in what is not printed (members
+    # with a leading underscore, a _str_ member that shows one field only):
+    # unequal values never tie in the enumeration order
+    defs = ("def a = <*v = 1, _h = 'x'*>; def b = <*v = 1, _h = 'y'*>; "
+            "def c = <*v = 1, _h = 'z'*>; def d = <*v = 1, _h = 'apple'*>; "
+            "def sf = fn(self) 'P' + self->k; "
+            "def p = <*_str_ = sf, k = 1, w = 'pear'*>; "
+            "def q = <*_str_ = sf, k = 1, w = 'fig'*>; "
+            "def r = <*_str_ = sf, k = 1, w = 'kiwi'*>; ")
+    for pname, order1, order2, read in (
+            ("hidden", "a, b, c, d", "d, c, b, a", "o->_h"),
+            ("str-member", "p, q, r", "r, q, p", "o->w")):
+        for vname, body in (
+                ("set-for", "do def out = []; for o in <<{O}>> do "
+                            "append(out, {R}); end; out end"),
+                ("set-lc", "[{R} for o in <<{O}>>]"),
+                ("map-keys", "[{R} for o in keys <<<{M}>>>]"),
+                ("sorted", "[{R} for o in sorted([{O}])]")):
+            for cname, order in (("fwd", order1), ("rev", order2)):
+                m = ", ".join("identity(%s) => 1" % x.strip()
+                              for x in order.split(","))
+                flat[f"obj:{pname}:{vname}|{cname}"] = defs + body.replace(
+                    "{O}", order).replace("{M}", m).replace("{R}", read)
     # renderings of syntax trees: every construct of the corpus parsed and
     # turned into text (a node that falls back to the host's default
     # rendering shows a memory address, which differs from process to
